@@ -80,7 +80,7 @@ def configs(prop, tier):
         slim = dict(full, Ops0=["cls", "esrq", "opc", "stbq", "errq"], EseVals=[0, 33])
         base = full if th else slim
         cs = [("oper", dict(base, Regs=["OPER"])), ("ques", dict(base, Regs=["QUES"], Tst=-330))]
-        cs.append(("misc", dict(Ops0=["eseq", "sreq", "opcq", "rst", "wai", "tstq", "stbq", "esrq", "cls", "idnq", "versq"], EseVals=[0, 1, 32, 33],
+        cs.append(("misc", dict(Ops0=["eseq", "sreq", "opc", "opcq", "rst", "wai", "tstq", "stbq", "esrq", "cls", "idnq", "versq"], EseVals=[0, 1, 32, 33],
                                 SreVals=[0, 32, 255], SreInitVals=[0, 32, 255], FailErrs=[{"code": -113, "ext": 0}],
                                 Regs=["OPER", "QUES"], RegWrites=["setcond", "enab"], RegVals=[0, 1], RegOps=["evq"], Mavs=[False, True], MaxQ=1, Tst=-330)))
         cs.append(("writes", dict(Ops0=["eseq", "sreq", "esrq", "errq", "cls"], EseVals=[0, 1, 128, 255, 170],
